@@ -801,6 +801,28 @@ def presentation_edit_battery(run):
         run.count("traces_validated_against_impl")
         if got != base + base:
             run.failure(f"presentation/{nm.replace(' ', '_').replace(',', '')}", f"'{nm}': stream has {got.count('|')} instructions, expected {2 * base.count('|')} (the base listing twice)", {"kind": "lx_edit", "edit": nm})
+    # symbol text is arbitrary: names that look like registers, Intel syntax or C++ signatures, on a register-free first line
+    def sym_listing(sym, preamble=0):
+        body = ["0000000000001189 <main>:", f"    1189:\te8 12 ff ff ff       \tcall   10a0{(' <' + sym + '>') if sym else ''}", "    118e:\t48 b8 88 77 66 55 44 \tmovabs $0x1122334455667788,%rax", "    1195:\t33 22 11 ", "    1198:\t48 89 c3             \tmov    %rax,%rbx", "    119b:\tc3                   \tret"]
+        pre = ["", "prog:     file format elf32-i386", "", "Disassembly of section .init:", "", "Disassembly of section .text:", ""] + [f"{0x1000 + i:016x} <alias{i}>:" if i % 2 else "" for i in range(preamble)]
+        return "\n".join(pre + body) + "\n"
+    ref = jasmapi.file_route_stream(sym_listing(None))
+    for sym in ("__x86.get_pc_thunk.bx", "std::to_string[abi:cxx11](int)", "eax", "DWORD PTR [rax+rbx*4]", "operator new(unsigned long)@plt", "a,b|c::d"):
+        try:
+            got = jasmapi.file_route_stream(sym_listing(sym))
+        except Exception as e:
+            got = f"{type(e).__name__}: {e}"
+        run.count("traces_validated_against_impl")
+        if got != ref:
+            run.failure("presentation/symbol_text", f"annotation <{sym}> on a register-free first line changes the result: {got[:120]!r} vs {ref[:120]!r}", {"kind": "lx_edit", "edit": "symbol " + sym})
+    for k in (15, 30, 60):
+        try:
+            got = jasmapi.file_route_stream(sym_listing("helper", preamble=k))
+        except Exception as e:
+            got = f"{type(e).__name__}: {e}"
+        run.count("traces_validated_against_impl")
+        if got != ref:
+            run.failure("presentation/long_preamble", f"{k} label / blank lines before the first instruction change the result: {got[:160]!r} vs {ref[:160]!r}", {"kind": "lx_edit", "edit": f"preamble {k}"})
     for opt_name, cfgdoc in (("", None), (" with config.sections", {"config": {"sections": [".s5"]}, "pattern": ["zzzz"]})):
         for name, data in file_variants.items():
             got = jasmapi.file_route_stream(data, cfgdoc)
